@@ -289,7 +289,8 @@ def forward_dataflow(func, init, transfer, join, edge_transfer=None, bottom=None
 # ---- loop progress ------------------------------------------------------------------------------
 PURE_CALLS = {'strlen', 'strcmp', 'strncmp', 'strchr', 'strrchr', 'strstr', 'isdigit', 'isspace', 'isalpha',
               'toupper', 'tolower', 'strcasecmp', 'memcmp', 'strnlen', 'pthread_equal', '__builtin_strlen',
-              'strpbrk', 'strspn', 'strcspn', 'abs', 'snoopy_util_string_countChars'}
+              'strpbrk', 'strspn', 'strcspn', 'abs', 'snoopy_util_string_countChars',
+              '__ctype_b_loc', '__ctype_tolower_loc', '__ctype_toupper_loc'}
 
 
 def stuck_cycles(func):
